@@ -443,7 +443,7 @@ def havoc_for_loop(self, node, st: State, spec: LoopSpec):
         if isinstance(v, Val):
             st.env[name] = mk_fresh(v.ty, name)
     for (oid, fld), val in list(st.heap.items()):
-        if isinstance(val, Val) and self.in_frame(st, oid, fld) and (spec.modifies is None or fld in spec.modifies):
+        if isinstance(val, Val) and ((self.in_frame(st, oid, fld) and (spec.modifies is None or fld in spec.modifies)) or fld in self.dont_care_fields()):
             st.heap[(oid, fld)] = mk_fresh(val.ty, f"h.{fld}")
     for g in ("$out_set", "$out_count", "$out_seq"):
         if g in st.ghost:
@@ -479,7 +479,7 @@ def check_inv(self, st: State, spec: LoopSpec, which: str, ordinal, ctx_extra):
     if which == "pres" and spec.modifies is not None:
         head = st.ghost.get(f"$loophead{ordinal}", {})
         for key, cur in st.heap.items():
-            if key[1] in spec.modifies or key not in head:
+            if key[1] in spec.modifies or key not in head or key[1] in self.dont_care_fields():
                 continue
             h = head[key]
             if isinstance(cur, Val) and isinstance(h, Val) and not (cur.term is h.term or z3.eq(cur.term, h.term)):
